@@ -105,6 +105,12 @@ CHECKS = {
         "technique": SMT + "; linear identities over symbolic element entries on real partitions",
         "design_ref": "DESIGN.md section 5 (C20)",
     },
+    "C17": {
+        "text": "Bounded symbolic check (2-D): the real PhaseField.Calc_C / Calc_Sigma_e_pg / Calc_psi_e_pg, the closed-form eigen-decomposition and the 4th-order spectral projector run for all 14 splits on one element with a SYMBOLIC strain at one Gauss point (sqrt(Delta) as auxiliary variable, Kelvin-Mandel sqrt(2) as exact algebraic number) next to an enumerated concrete state (generic, zero, hydrostatic +/-, uniaxial, shear) at the other Gauss point; value-dependent branches (equal eigenvalues, signs of eigenvalues / trace, masks, heaviside, abs) are executed concolically and the regions are enumerated until z3 proves that they cover the strain box [-1,1]^3, degenerate (lower-dimensional) regions included; on every region z3 / exact algebra decide, for all strains of the region: every denominator non-zero (finite outputs), sigma+ + sigma- = C eps, psi+ + psi- = 1/2 eps.C.eps, M_i^2 = M_i, M_1 M_2 = 0, M_1 + M_2 = I, eps = sum lambda_i M_i, projP v = sum <lambda_i>+ M_i. Reaction / source terms of AT1 / AT2 non-negative and zero at zero energy for all psi+ >= 0. History field of the real simulation over three successive symbolic displacement states: never decreasing, dominating psi+.",
+        "note": "Trusted: Sym arithmetic with reduction modulo s^2 = Delta, r^2 = 2; z3 nlsat for the region cover and sign conditions; exact polynomial division on equality regions. Outside: 3-D splits (transcendental Lode-angle closed forms), the staggered solver loop and the BoundConstrain / HistoryDamage solvers, float round-off near (not at) degenerate states except where a replay exposes it (one such defect fixed). Material constants concrete.",
+        "technique": SMT + "; concolic region enumeration with a solver-proved cover of the strain box",
+        "design_ref": "DESIGN.md section 5 (C17)",
+    },
 }
 
 NOT_APPLICABLE = {
